@@ -30,7 +30,7 @@ RAISE_TAGS = [
 
 def cases(tier):
     out = [("ppt", r) for r in range(200 if tier == "quick" else 8000)]
-    out += [("sep", r) for r in range(160 if tier == "quick" else 5000)]
+    out += [("sep", r) for r in range(160 if tier == "quick" else 3200)]
     out += [("npt", r) for r in range(80 if tier == "quick" else 3000)]
     out += [("inv", r) for r in range(60 if tier == "quick" else 2000)]
     out += [("ball", r) for r in range(80 if tier == "quick" else 3000)]
